@@ -42,7 +42,17 @@ VARIANTS = {
     "npz": (".npz", None, False),
 }
 MEM_VARIANTS = ["dict", "meshio"]
-NAMES = ["left", "a", "ab", "abc", "b_x", "s_1", "top-2", "Om", "om", "x1"]
+NAMES = ["left", "a", "ab", "abc", "b_x", "s_1", "top-2", "Om", "om", "x1",
+         "reg:1"]     # the library's own gmsh loader produces names with ':' 
+# specimen files shipped with the library's documentation: meshes written by
+# gmsh itself (physical groups, oriented interfaces, second order, curved)
+SPECIMEN_DIR = "/repo/docs/examples/meshes"
+SPECIMENS = ["annulus.msh", "beams.msh", "cube_oriented_sub.msh",
+             "cylinder_stokes.msh", "disk.json", "ex04_mesh.json", "ex28.msh",
+             "interface.msh", "internal.msh", "oriented_squares.msh",
+             "quadratic_quad.msh", "quadratic_tri.msh", "quadraticsphere.msh",
+             "square.msh", "tagged_gmsh4.msh", "troublesome_mesh.vtk",
+             "mixedtriquad.msh"]
 CELLS = ["tri", "quad", "tet", "hex"]
 
 
@@ -56,15 +66,19 @@ def snap_mesh(m):
         for k, v in (tags or {}).items():
             if not np.issubdtype(np.asarray(v).dtype, np.integer):
                 out["bad_dtype"] = [what, str(k), str(np.asarray(v).dtype)]
+    # tags are SETS of entities: an index array may list an entity twice (the
+    # concatenation of two overlapping selections); the set is what must
+    # survive, so duplicates are removed before comparing
     for k, v in (m.subdomains or {}).items():
-        out["sub"][str(k)] = np.sort(np.array(v, dtype=np.int64).ravel())
+        out["sub"][str(k)] = np.unique(np.array(v, dtype=np.int64).ravel())
     for k, v in (m.boundaries or {}).items():
         idx = np.array(v, dtype=np.int64).ravel()
         ori = getattr(v, "ori", None)
         ori = np.zeros(len(idx), dtype=np.int64) if ori is None \
             else np.array(ori, dtype=np.int64).ravel()
-        order = np.argsort(idx, kind="stable")
-        out["bnd"][str(k)] = (idx[order], ori[order])
+        pairs = np.unique(np.stack((idx, ori), axis=1), axis=0) \
+            if len(idx) else np.zeros((0, 2), dtype=np.int64)
+        out["bnd"][str(k)] = (pairs[:, 0], pairs[:, 1])
     return out
 
 
@@ -134,7 +148,8 @@ def gen_tags(rng):
                      "frac": rng.choice([0.0, 0.1, 0.3, 0.6, 1.0]),
                      "seed": rng.randrange(1 << 30),
                      "where": rng.choice(["boundary", "interior", "any"]),
-                     "shuffle": rng.random() < 0.35})
+                     "shuffle": rng.random() < 0.35,
+                     "repeat": rng.random() < 0.15})
     return tags
 
 
@@ -157,9 +172,11 @@ def generate(rng, tier):
         rec = meshes.random_recipe(rng, [cell], max_n=max_n, order2=0.3)
         slot = "m%d" % nm
         nm += 1
-        ops.append({"op": "mk", "slot": slot, "recipe": rec,
-                    "tags": gen_tags(rng),
-                    "data_seed": rng.randrange(1 << 30)})
+        o = {"op": "mk", "slot": slot, "recipe": rec, "tags": gen_tags(rng),
+             "data_seed": rng.randrange(1 << 30)}
+        if rng.random() < 0.12:
+            o["file"] = rng.choice(SPECIMENS)
+        ops.append(o)
         return slot
 
     slots = [mk()]
@@ -216,7 +233,27 @@ def build_mesh(o):
     """Mesh with seeded tags (arbitrary cell subsets, boundary and interior
     facet subsets, oriented interfaces with seeded flags)."""
     from skfem.generic_utils import OrientedBoundary
-    m = meshes.build(o["recipe"])
+    m = None
+    if o.get("file"):
+        path = os.path.join(SPECIMEN_DIR, o["file"])
+        if os.path.exists(path):
+            if path.endswith(".json"):
+                from skfem.io.json import from_file
+                m = from_file(path)
+            else:
+                from skfem import Mesh
+                m = Mesh.load(path)
+        if m is not None and m.subdomains:
+            # the gmsh loader reports gmsh's 'gmsh:bounding_entities'
+            # bookkeeping (negative and repeated entity tags) as if it were a
+            # subdomain; that is not a set of cells, so it is not carried
+            # into the round trips (DESIGN.md section 7)
+            from dataclasses import replace as _replace
+            keep = {k: v for k, v in m.subdomains.items()
+                    if not str(k).startswith("gmsh:")}
+            m = _replace(m, _subdomains=keep or None)
+    if m is None:
+        m = meshes.build(o["recipe"])
     subs, bnds = {}, {}
     for tg in o["tags"]:
         r = random.Random(tg["seed"])
@@ -237,12 +274,17 @@ def build_mesh(o):
                 cand = np.arange(f2t.shape[1])
             k = min(len(cand), int(round(tg["frac"] * len(cand))))
             ix = sorted(r.sample(cand.tolist(), k))
+            if tg.get("repeat") and ix:
+                # the same facet listed twice (overlapping selections)
+                ix = ix + [ix[r.randrange(len(ix))]]
             if tg.get("shuffle"):
                 r.shuffle(ix)     # a user-chosen, not ascending, order
             idx = np.array(ix, dtype=np.int32)
             if tg["kind"] == "bo":
-                ori = np.array([r.randrange(2) if f2t[1, f] != -1 else 0
-                                for f in idx], dtype=np.int64)
+                flag = {}
+                for f in idx.tolist():   # one flag per facet, also if listed twice
+                    flag.setdefault(f, r.randrange(2) if f2t[1, f] != -1 else 0)
+                ori = np.array([flag[f] for f in idx.tolist()], dtype=np.int64)
                 bnds[tg["name"]] = OrientedBoundary(idx, ori)
             else:
                 bnds[tg["name"]] = idx
@@ -380,6 +422,8 @@ def _execute(trace):
                 v = None
                 if op == "mk":
                     W[o["slot"]] = build_mesh(o)
+                    if o.get("file"):
+                        bump(probes, "specimen-file-mesh")
                     W[o["slot"] + ":data"] = user_data(W[o["slot"]],
                                                        o["data_seed"])
                     log.append((k, "mk", mesh_digest(W[o["slot"]])))
